@@ -10,11 +10,7 @@ PID = "C08"
 
 def run(tier, seed):
     chk = runner.Check(PID, tier, seed)
-    repo = Repo()
-    for N in ec.NS:
-        for rep in ec.single_run_reports(repo, N, ("node", "getyonx", "p2d", "getimage")):
-            chk.add_report(rep)
-        ec.relational(repo, chk, N, ("R01", "R2", "NEST"))
+    ec.run_parallel(chk, ("node", "getyonx", "p2d", "getimage"), ("R01", "R2", "NEST"), (), Ns=ec.NS)
     chk.assumptions += [
         ec.ASSUME_FLOAT, ec.ASSUME_NUMPY, ec.ASSUME_PRODUCT,
         "UNMECHANISED CONSEQUENCE: the third sentence of C08 (||y(x')-y(x'')|| <= 2*sqrt(N+3)*|x'-x''|^(1/N)*side for "
